@@ -663,7 +663,7 @@ impl TimeZoneProvider for FsTzdbProvider {
         iso_datetime: IsoDateTime,
     ) -> TemporalResult<Vec<EpochNanoseconds>> {
         let epoch_nanos = iso_datetime.as_nanoseconds()?;
-        let seconds = (epoch_nanos.0 / 1_000_000_000) as i64;
+        let seconds = epoch_nanos.0.div_euclid(1_000_000_000) as i64;
         let tzif = self.get(identifier)?;
         let local_time_record_result = tzif.v2_estimate_tz_pair(&Seconds(seconds))?;
         let result = match local_time_record_result {
@@ -690,7 +690,7 @@ impl TimeZoneProvider for FsTzdbProvider {
         utc_epoch: i128,
     ) -> TemporalResult<TimeZoneOffset> {
         let tzif = self.get(identifier)?;
-        let seconds = (utc_epoch / 1_000_000_000) as i64;
+        let seconds = utc_epoch.div_euclid(1_000_000_000) as i64;
         tzif.get(&Seconds(seconds))
     }
 
